@@ -399,10 +399,10 @@ func init() {
 					c08Scope("minkowski/every 10th of P(3,4)/"+pe.Name+" x closed triangles/E_ax20", pe, 4, 10, enum.Eax20, 3, true, 1, 3),
 					c08Scope("minkowski/P(3,4)/"+pe.Name+" x open 2-point paths/E_ax20", pe, 4, 1, enum.Eax20, 2, false, 1, 3),
 					c08Scope("minkowski/P(3,3)/"+pe.Name+" x closed quads (every 28th)/E_ax20", pe, 3, 1, enum.Eax20, 4, true, 28, 3),
-					c08ShiftScope("minkowski translated/P(3,3)/"+pe.Name+" x open 2-point paths/E_ax20 x 5 translations", pe, 3, 1, enum.Eax20, 2, false, 1, c08Shifts, 2),
-					c08ShiftScope("minkowski translated/every 4th of P(3,3)/"+pe.Name+" x closed triangles (every 4th)/E_sh20 x 5 translations", pe, 3, 4, enum.Esh20, 3, true, 4, c08Shifts, 3),
-					c08ScaleScope("minkowski scaled/every 2nd of P(3,3)/"+pe.Name+" x open 2-point paths/E_ax20 x 4 factors", pe, 3, 2, enum.Eax20, 2, false, 1, c08Factors, 2),
-					c08ScaleScope("minkowski scaled/every 4th of P(3,3)/"+pe.Name+" x closed triangles (every 4th)/E_sh20 x 4 factors", pe, 3, 4, enum.Esh20, 3, true, 4, c08Factors, 3))
+					c08ShiftScope("minkowski translated/every 7th of P(3,3)/"+pe.Name+" x open 2-point paths (every 2nd)/E_ax20 x 5 translations", pe, 3, 7, enum.Eax20, 2, false, 2, c08Shifts, 2),
+					c08ShiftScope("minkowski translated/every 10th of P(3,3)/"+pe.Name+" x closed triangles (every 10th)/E_sh20 x 5 translations", pe, 3, 10, enum.Esh20, 3, true, 10, c08Shifts, 3),
+					c08ScaleScope("minkowski scaled/every 7th of P(3,3)/"+pe.Name+" x open 2-point paths (every 2nd)/E_ax20 x 4 factors", pe, 3, 7, enum.Eax20, 2, false, 2, c08Factors, 2),
+					c08ScaleScope("minkowski scaled/every 10th of P(3,3)/"+pe.Name+" x closed triangles (every 10th)/E_sh20 x 4 factors", pe, 3, 10, enum.Esh20, 3, true, 10, c08Factors, 3))
 			}
 			return out
 		},
